@@ -5,7 +5,6 @@ package c16
 import (
 	"fmt"
 	"net"
-	"strconv"
 	"strings"
 	"testing"
 
@@ -13,6 +12,7 @@ import (
 
 	"github.com/free5gc/go-gtp5gnl"
 	"github.com/free5gc/go-upf/internal/forwarder"
+	"github.com/free5gc/go-upf/internal/verif/flowgen"
 	"github.com/free5gc/go-upf/internal/verif/vcore"
 )
 
@@ -27,224 +27,18 @@ func TestMain(m *testing.M) {
 	vcore.Main(m)
 }
 
-// ---------------------------------------------------------------- reference model
-
-type Addr struct {
-	Kind   string `json:"kind"` // any | assigned | host | prefix
-	IP     [4]byte `json:"ip"`
-	Prefix int    `json:"prefix"`
-}
-
-type PortItem struct {
-	Lo, Hi uint16
-	Range  bool
-}
-
-type Rule struct {
-	Dir      string     `json:"dir"`
-	Proto    int        `json:"proto"` // -1 = "ip"
-	Src      Addr       `json:"src"`
-	SrcPorts []PortItem `json:"src_ports"`
-	Dst      Addr       `json:"dst"`
-	DstPorts []PortItem `json:"dst_ports"`
-	Seps     []string   `json:"seps"` // separators between tokens (and leading/trailing)
-}
-
 type Case struct {
 	Text string `json:"text"`
 	Swap bool   `json:"swap"`
 	// Valid says the text was produced by the grammar (Rule is its meaning).
 	Valid bool  `json:"valid"`
-	Rule  *Rule `json:"rule,omitempty"`
+	Rule  *flowgen.Rule `json:"rule,omitempty"`
 }
 
-// filter is the denotation of a rule.
-type filter struct {
-	action, dir  uint8
-	proto        uint8
-	srcNet, dstNet [4]byte
-	srcMask, dstMask [4]byte
-	srcPorts, dstPorts [][2]uint16
-}
-
-func (a Addr) text() string {
-	switch a.Kind {
-	case "any", "assigned":
-		return a.Kind
-	case "host":
-		return net.IP(a.IP[:]).String()
-	default:
-		return fmt.Sprintf("%s/%d", net.IP(a.IP[:]).String(), a.Prefix)
-	}
-}
-
-func (a Addr) denote() (n, m [4]byte) {
-	switch a.Kind {
-	case "any", "assigned":
-		return
-	case "host":
-		return a.IP, [4]byte{255, 255, 255, 255}
-	default:
-		mask := net.CIDRMask(a.Prefix, 32)
-		for i := 0; i < 4; i++ {
-			m[i] = mask[i]
-			n[i] = a.IP[i] & mask[i]
-		}
-		return
-	}
-}
-
-func portsText(ps []PortItem) string {
-	var parts []string
-	for _, p := range ps {
-		if p.Range {
-			parts = append(parts, fmt.Sprintf("%d-%d", p.Lo, p.Hi))
-		} else {
-			parts = append(parts, strconv.Itoa(int(p.Lo)))
-		}
-	}
-	return strings.Join(parts, ",")
-}
-
-func portsDenote(ps []PortItem) [][2]uint16 {
-	var out [][2]uint16
-	for _, p := range ps {
-		if p.Range {
-			out = append(out, [2]uint16{p.Lo, p.Hi})
-		} else {
-			out = append(out, [2]uint16{p.Lo, p.Lo})
-		}
-	}
-	return out
-}
-
-func (r *Rule) tokens() []string {
-	t := []string{"permit", r.Dir}
-	if r.Proto < 0 {
-		t = append(t, "ip")
-	} else {
-		t = append(t, strconv.Itoa(r.Proto))
-	}
-	t = append(t, "from", r.Src.text())
-	if len(r.SrcPorts) > 0 {
-		t = append(t, portsText(r.SrcPorts))
-	}
-	t = append(t, "to", r.Dst.text())
-	if len(r.DstPorts) > 0 {
-		t = append(t, portsText(r.DstPorts))
-	}
-	return t
-}
-
-func (r *Rule) text() string {
-	toks := r.tokens()
-	var sb strings.Builder
-	sep := func(i int) string {
-		if i < len(r.Seps) && r.Seps[i] != "" {
-			return r.Seps[i]
-		}
-		return " "
-	}
-	if len(r.Seps) > 0 && strings.TrimSpace(r.Seps[0]) == "" {
-		sb.WriteString(r.Seps[0]) // leading blanks (may be empty)
-	}
-	for i, t := range toks {
-		if i > 0 {
-			sb.WriteString(sep(i))
-		}
-		sb.WriteString(t)
-	}
-	if len(r.Seps) > len(toks) {
-		sb.WriteString(r.Seps[len(toks)])
-	}
-	return sb.String()
-}
-
-func (r *Rule) denote(swap bool) filter {
-	f := filter{action: gtp5gnl.SDF_FILTER_PERMIT}
-	if r.Dir == "in" {
-		f.dir = gtp5gnl.SDF_FILTER_IN
-	} else {
-		f.dir = gtp5gnl.SDF_FILTER_OUT
-	}
-	if r.Proto < 0 {
-		f.proto = 0xff
-	} else {
-		f.proto = uint8(r.Proto)
-	}
-	f.srcNet, f.srcMask = r.Src.denote()
-	f.dstNet, f.dstMask = r.Dst.denote()
-	f.srcPorts = portsDenote(r.SrcPorts)
-	f.dstPorts = portsDenote(r.DstPorts)
-	if swap {
-		f.srcNet, f.dstNet = f.dstNet, f.srcNet
-		f.srcMask, f.dstMask = f.dstMask, f.srcMask
-		f.srcPorts, f.dstPorts = f.dstPorts, f.srcPorts
-	}
-	return f
-}
-
-// ---------------------------------------------------------------- generators
-
-func genAddr(t *rapid.T, label string) Addr {
-	kind := rapid.SampledFrom([]string{"any", "assigned", "host", "prefix", "prefix"}).Draw(t, label+"kind")
-	a := Addr{Kind: kind}
-	if kind == "host" || kind == "prefix" {
-		b := rapid.SliceOfN(rapid.OneOf(rapid.Byte(), rapid.SampledFrom([]byte{0, 1, 10, 127, 128, 254, 255})), 4, 4).Draw(t, label+"ip")
-		copy(a.IP[:], b)
-	}
-	if kind == "prefix" {
-		a.Prefix = rapid.OneOf(rapid.IntRange(0, 32), rapid.SampledFrom([]int{0, 1, 7, 8, 9, 15, 16, 17, 23, 24, 25, 31, 32})).Draw(t, label+"plen")
-	}
-	return a
-}
-
-var portVals = rapid.OneOf(rapid.Uint16(), rapid.SampledFrom([]uint16{0, 1, 80, 255, 256, 1023, 1024, 32767, 32768, 65534, 65535}))
-
-func genPorts(t *rapid.T, label string) []PortItem {
-	n := rapid.SampledFrom([]int{0, 0, 1, 1, 2, 3, 5, 8}).Draw(t, label+"n")
-	var ps []PortItem
-	for i := 0; i < n; i++ {
-		lo := portVals.Draw(t, label+"lo")
-		if rapid.Bool().Draw(t, label+"range") {
-			hi := portVals.Draw(t, label+"hi")
-			if hi < lo {
-				lo, hi = hi, lo
-			}
-			ps = append(ps, PortItem{Lo: lo, Hi: hi, Range: true})
-		} else {
-			ps = append(ps, PortItem{Lo: lo, Hi: lo})
-		}
-	}
-	return ps
-}
-
-func genRule(t *rapid.T) *Rule {
-	r := &Rule{
-		Dir:   rapid.SampledFrom([]string{"in", "out"}).Draw(t, "dir"),
-		Proto: rapid.OneOf(rapid.Just(-1), rapid.IntRange(0, 255), rapid.SampledFrom([]int{0, 1, 6, 17, 254, 255})).Draw(t, "proto"),
-	}
-	r.Src = genAddr(t, "src")
-	r.SrcPorts = genPorts(t, "sp")
-	r.Dst = genAddr(t, "dst")
-	r.DstPorts = genPorts(t, "dp")
-	ntok := len(r.tokens())
-	if rapid.Bool().Draw(t, "oddspacing") {
-		r.Seps = make([]string, ntok+1)
-		for i := range r.Seps {
-			s := rapid.SampledFrom([]string{" ", " ", "  ", "\t", " \t ", "   "}).Draw(t, "sep")
-			if i == 0 || i == ntok {
-				s = rapid.SampledFrom([]string{"", "", " ", "\t", "  "}).Draw(t, "edge")
-			}
-			r.Seps[i] = s
-		}
-	}
-	return r
-}
 
 // near-miss mutations of a valid rule
-func mutate(t *rapid.T, r *Rule) string {
-	toks := r.tokens()
+func mutate(t *rapid.T, r *flowgen.Rule) string {
+	toks := r.Tokens()
 	k := rapid.IntRange(0, 13).Draw(t, "mut")
 	i := rapid.IntRange(0, len(toks)-1).Draw(t, "pos")
 	switch k {
@@ -369,7 +163,7 @@ func check(c Case) (v *vcore.Violation) {
 	if perr != nil {
 		return vcore.Violatef("reject-valid", "valid rule %q rejected: %v", c.Text, perr)
 	}
-	want := c.Rule.denote(false)
+	want := c.Rule.Denote(false)
 	// --- ParseFlowDesc result
 	if fd.Action != "permit" {
 		return vcore.Violatef("action", "%q: action %q", c.Text, fd.Action)
@@ -377,30 +171,30 @@ func check(c Case) (v *vcore.Violation) {
 	if fd.Dir != c.Rule.Dir {
 		return vcore.Violatef("dir", "%q: dir %q", c.Text, fd.Dir)
 	}
-	if fd.Proto != want.proto {
-		return vcore.Violatef("proto", "%q: proto %d want %d", c.Text, fd.Proto, want.proto)
+	if fd.Proto != want.Proto {
+		return vcore.Violatef("proto", "%q: proto %d want %d", c.Text, fd.Proto, want.Proto)
 	}
 	sn, sm, err := ipnetDenote(fd.Src)
 	if err != nil {
 		return vcore.Violatef("src-form", "%q: src %v", c.Text, err)
 	}
-	if sn != want.srcNet || sm != want.srcMask {
-		return vcore.Violatef("src", "%q: src %v/%v want %v/%v", c.Text, sn, sm, want.srcNet, want.srcMask)
+	if sn != want.SrcNet || sm != want.SrcMask {
+		return vcore.Violatef("src", "%q: src %v/%v want %v/%v", c.Text, sn, sm, want.SrcNet, want.SrcMask)
 	}
 	dn, dm, err := ipnetDenote(fd.Dst)
 	if err != nil {
 		return vcore.Violatef("dst-form", "%q: dst %v", c.Text, err)
 	}
-	if dn != want.dstNet || dm != want.dstMask {
-		return vcore.Violatef("dst", "%q: dst %v/%v want %v/%v", c.Text, dn, dm, want.dstNet, want.dstMask)
+	if dn != want.DstNet || dm != want.DstMask {
+		return vcore.Violatef("dst", "%q: dst %v/%v want %v/%v", c.Text, dn, dm, want.DstNet, want.DstMask)
 	}
 	sp, err := parsedPorts(fd.SrcPorts)
-	if err != nil || !eqPorts(sp, want.srcPorts) {
-		return vcore.Violatef("src-ports", "%q: src ports %v want %v (%v)", c.Text, fd.SrcPorts, want.srcPorts, err)
+	if err != nil || !eqPorts(sp, want.SrcPorts) {
+		return vcore.Violatef("src-ports", "%q: src ports %v want %v (%v)", c.Text, fd.SrcPorts, want.SrcPorts, err)
 	}
 	dp, err := parsedPorts(fd.DstPorts)
-	if err != nil || !eqPorts(dp, want.dstPorts) {
-		return vcore.Violatef("dst-ports", "%q: dst ports %v want %v (%v)", c.Text, fd.DstPorts, want.dstPorts, err)
+	if err != nil || !eqPorts(dp, want.DstPorts) {
+		return vcore.Violatef("dst-ports", "%q: dst ports %v want %v (%v)", c.Text, fd.DstPorts, want.DstPorts, err)
 	}
 	// --- packed form
 	b := make([]byte, attrs.Len())
@@ -411,26 +205,26 @@ func check(c Case) (v *vcore.Violation) {
 	if err != nil {
 		return vcore.Violatef("decode", "%q: DecodeFlowDesc: %v", c.Text, err)
 	}
-	w := c.Rule.denote(c.Swap)
-	if dec.Action != w.action || dec.Dir != w.dir || dec.Proto != w.proto {
-		return vcore.Violatef("packed-head", "%q swap=%v: action/dir/proto %d/%d/%d want %d/%d/%d", c.Text, c.Swap, dec.Action, dec.Dir, dec.Proto, w.action, w.dir, w.proto)
+	w := c.Rule.Denote(c.Swap)
+	if dec.Action != w.Action || dec.Dir != w.Dir || dec.Proto != w.Proto {
+		return vcore.Violatef("packed-head", "%q swap=%v: action/dir/proto %d/%d/%d want %d/%d/%d", c.Text, c.Swap, dec.Action, dec.Dir, dec.Proto, w.Action, w.Dir, w.Proto)
 	}
 	if len(dec.Src.IP) != 4 || len(dec.Src.Mask) != 4 || len(dec.Dst.IP) != 4 || len(dec.Dst.Mask) != 4 {
 		return vcore.Violatef("packed-missing", "%q: an address or mask attribute is missing", c.Text)
 	}
-	if first4(dec.Src.IP) != w.srcNet || mask4(dec.Src.Mask) != w.srcMask {
-		return vcore.Violatef("packed-src", "%q swap=%v: packed src %v/%v want %v/%v", c.Text, c.Swap, dec.Src.IP, dec.Src.Mask, w.srcNet, w.srcMask)
+	if first4(dec.Src.IP) != w.SrcNet || mask4(dec.Src.Mask) != w.SrcMask {
+		return vcore.Violatef("packed-src", "%q swap=%v: packed src %v/%v want %v/%v", c.Text, c.Swap, dec.Src.IP, dec.Src.Mask, w.SrcNet, w.SrcMask)
 	}
-	if first4(dec.Dst.IP) != w.dstNet || mask4(dec.Dst.Mask) != w.dstMask {
-		return vcore.Violatef("packed-dst", "%q swap=%v: packed dst %v/%v want %v/%v", c.Text, c.Swap, dec.Dst.IP, dec.Dst.Mask, w.dstNet, w.dstMask)
+	if first4(dec.Dst.IP) != w.DstNet || mask4(dec.Dst.Mask) != w.DstMask {
+		return vcore.Violatef("packed-dst", "%q swap=%v: packed dst %v/%v want %v/%v", c.Text, c.Swap, dec.Dst.IP, dec.Dst.Mask, w.DstNet, w.DstMask)
 	}
 	psp, err := parsedPorts(dec.SrcPorts)
-	if err != nil || !eqPorts(psp, w.srcPorts) {
-		return vcore.Violatef("packed-src-ports", "%q swap=%v: packed src ports %v want %v", c.Text, c.Swap, dec.SrcPorts, w.srcPorts)
+	if err != nil || !eqPorts(psp, w.SrcPorts) {
+		return vcore.Violatef("packed-src-ports", "%q swap=%v: packed src ports %v want %v", c.Text, c.Swap, dec.SrcPorts, w.SrcPorts)
 	}
 	pdp, err := parsedPorts(dec.DstPorts)
-	if err != nil || !eqPorts(pdp, w.dstPorts) {
-		return vcore.Violatef("packed-dst-ports", "%q swap=%v: packed dst ports %v want %v", c.Text, c.Swap, dec.DstPorts, w.dstPorts)
+	if err != nil || !eqPorts(pdp, w.DstPorts) {
+		return vcore.Violatef("packed-dst-ports", "%q swap=%v: packed dst ports %v want %v", c.Text, c.Swap, dec.DstPorts, w.DstPorts)
 	}
 	return nil
 }
@@ -444,7 +238,7 @@ func account(c Case) {
 	vcore.E.Class("grammar")
 	r := c.Rule
 	hasRange := false
-	for _, p := range append(append([]PortItem{}, r.SrcPorts...), r.DstPorts...) {
+	for _, p := range append(append([]flowgen.PortItem{}, r.SrcPorts...), r.DstPorts...) {
 		if p.Range {
 			hasRange = true
 		}
@@ -463,7 +257,7 @@ func account(c Case) {
 		vcore.E.Class("odd_spacing")
 	}
 	if hasRange && midPrefix && c.Swap {
-		vcore.E.NonTrivial(vcore.FP(strings.Join(r.tokens(), " "), c.Swap))
+		vcore.E.NonTrivial(vcore.FP(strings.Join(r.Tokens(), " "), c.Swap))
 		vcore.E.Sample("nontrivial", map[string]any{"text": c.Text, "swap": c.Swap})
 	}
 }
@@ -493,8 +287,8 @@ func TestC16(t *testing.T) {
 		vcore.Report(t, check(c), c)
 	}
 	vcore.Check(t, vcore.N(20000, 300000), func(rt *rapid.T) {
-		r := genRule(rt)
-		c := Case{Text: r.text(), Swap: rapid.Bool().Draw(rt, "swap"), Valid: true, Rule: r}
+		r := flowgen.GenRule(rt)
+		c := Case{Text: r.Text(), Swap: rapid.Bool().Draw(rt, "swap"), Valid: true, Rule: r}
 		account(c)
 		vcore.Report(rt, check(c), c)
 	})
@@ -504,7 +298,7 @@ func TestC16(t *testing.T) {
 			c = Case{Text: rapid.OneOf(rapid.String(), rapid.StringMatching(`[ a-z0-9./,\-]{0,60}`)).Draw(rt, "raw"), Swap: rapid.Bool().Draw(rt, "swap")}
 			vcore.E.Class("raw_string")
 		} else {
-			r := genRule(rt)
+			r := flowgen.GenRule(rt)
 			c = Case{Text: mutate(rt, r), Swap: rapid.Bool().Draw(rt, "swap")}
 			vcore.E.Class("near_miss")
 			vcore.E.Sample("near-miss", map[string]any{"text": c.Text, "swap": c.Swap})
